@@ -181,11 +181,13 @@ Proof.
 Qed.
 
 (* ---- any other value is returned unchanged *)
-Lemma resolve_other k v : month_of v = None -> in_domain v -> resolve k v = MVal v.
+(* True is excluded: isinstance(True, int) holds, so the long / abbreviation middlewares read it as month 1 although it
+   is not a spelling (resolve_bool_true below) *)
+Lemma resolve_other k v : month_of v = None -> in_domain v -> v <> VBool true -> resolve k v = MVal v.
 Proof.
-  unfold month_of, in_domain. destruct v as [s|z| | | | | | |]; try (intros; destruct k; reflexivity).
+  unfold month_of, in_domain. destruct v as [s|z| | | |b| | |]; try (intros; destruct k; reflexivity).
   - destruct (str_isdecimal s) eqn:D.
-    + intros H Hdom. specialize (Hdom eq_refl). unfold int_of_decimal in H.
+    + intros H Hdom _. specialize (Hdom eq_refl). unfold int_of_decimal in H.
       destruct (py_int s) as [n|] eqn:P; [|congruence].
       destruct (in_range (Z.of_N n)) eqn:R; [discriminate|].
       pose proof (str_isdecimal_lower s D) as Hl.
@@ -202,12 +204,23 @@ Proof.
       destruct k; cbn [resolve]; unfold resolve_int, resolve_abbrev, resolve_long, int_of_decimal;
         rewrite ?Hl, ?D, ?P, ?R, ?M1, ?M2; reflexivity.
     + destruct (index_of (lower s) month_abbrev) as [i|] eqn:I; [discriminate|].
-      destruct (index_of (lower s) lowercase_full) as [i|] eqn:J; [discriminate|]. intros _ _.
+      destruct (index_of (lower s) lowercase_full) as [i|] eqn:J; [discriminate|]. intros _ _ _.
       pose proof (index_of_None _ _ I) as M1. pose proof (index_of_None _ _ J) as M2.
       destruct k; cbn [resolve]; unfold resolve_int, resolve_abbrev, resolve_long, abbrev_to_full;
         rewrite ?D; cbv zeta; rewrite ?I, ?J, ?M1, ?M2; reflexivity.
-  - destruct (in_range z) eqn:R; [discriminate|]. intros _ _.
+  - destruct (in_range z) eqn:R; [discriminate|]. intros _ _ _.
     destruct k; cbn [resolve]; unfold resolve_int, resolve_abbrev, resolve_long; rewrite ?R; reflexivity.
+  - destruct b; [intros _ _ H; contradiction H; reflexivity | intros _ _ _; destruct k; reflexivity].
+Qed.
+
+Lemma resolve_bool_true :
+  resolve MInt (VBool true) = MVal (VBool true)
+  /\ resolve MAbbrev (VBool true) = MVal (VStr (abbrev_of 1))
+  /\ resolve MLong (VBool true) = MVal (VStr (full_of 1))
+  /\ ~ is_month_spelling (VBool true).
+Proof.
+  repeat split; try reflexivity.
+  intros (m & _ & [H|[(s & H & _)|[(s & H & _)|(s & H & _)]]]); discriminate H.
 Qed.
 
 (* ---- the three canonical outputs are themselves spellings of the same month *)
@@ -230,20 +243,20 @@ Proof.
   repeat split; [apply (resolve_spelled MInt) | apply (resolve_spelled MAbbrev) | apply (resolve_spelled MLong)]; exact H.
 Qed.
 
-Lemma others_unchanged k v : ~ is_month_spelling v -> in_domain v -> resolve k v = MVal v.
+Lemma others_unchanged k v : ~ is_month_spelling v -> in_domain v -> v <> VBool true -> resolve k v = MVal v.
 Proof.
-  intros Hn Hd. apply resolve_other; [|exact Hd].
+  intros Hn Hd Hb. apply resolve_other; [|exact Hd|exact Hb].
   destruct (month_of v) as [m|] eqn:E; [|reflexivity]. exfalso. apply Hn.
   destruct (month_of_sound v m E) as [Hm Hs]. exists m. split; assumption.
 Qed.
 
-Lemma compose f g v v1 : in_domain v -> resolve f v = MVal v1 -> resolve g v1 = resolve g v.
+Lemma compose f g v v1 : in_domain v -> v <> VBool true -> resolve f v = MVal v1 -> resolve g v1 = resolve g v.
 Proof.
-  intros Hd H1. destruct (month_of v) as [m|] eqn:E.
+  intros Hd Hb H1. destruct (month_of v) as [m|] eqn:E.
   - destruct (month_of_sound v m E) as [Hm _].
     rewrite (resolve_spelled f v m E) in H1. inversion H1; subst v1.
     rewrite (resolve_spelled g _ m (canon_spells f m Hm)). rewrite (resolve_spelled g v m E). reflexivity.
-  - rewrite (resolve_other f v E Hd) in H1. inversion H1; subst. reflexivity.
+  - rewrite (resolve_other f v E Hd Hb) in H1. inversion H1; subst. reflexivity.
 Qed.
 
 Lemma never_raises k v : resolve k v <> MRaise.
@@ -253,7 +266,7 @@ Proof.
   - destruct v as [s|z| | | | | | |]; try (destruct k; discriminate).
     destruct (str_isdecimal s) eqn:D.
     + destruct (py_int s) as [n|] eqn:P.
-      * rewrite (resolve_other k (VStr s) E); [discriminate|]. unfold in_domain. intros _. congruence.
+      * rewrite (resolve_other k (VStr s) E); [discriminate| |discriminate]. unfold in_domain. intros _. congruence.
       * pose proof (str_isdecimal_lower s D) as Hl.
            destruct k; cbn [resolve]; unfold resolve_int, resolve_abbrev, resolve_long, int_of_decimal; rewrite ?Hl, ?D, ?P; try discriminate.
            destruct (mem_str s month_abbrev) eqn:M.
@@ -261,7 +274,7 @@ Proof.
              assert (length month_abbrev = 12%nat) as L by reflexivity. rewrite L in B.
              rewrite <- Hl in A. symmetry in A. rewrite (abbrev_row_not_decimal s i B A) in D. discriminate. }
            destruct (index_of s lowercase_full); discriminate.
-    + rewrite (resolve_other k (VStr s) E); [discriminate|]. unfold in_domain. congruence.
+    + rewrite (resolve_other k (VStr s) E); [discriminate| |discriminate]. unfold in_domain. congruence.
 Qed.
 
 (* ---- middleware level: only the value of the month field (and the middleware's own metadata entry) changes *)
